@@ -88,7 +88,6 @@ func parseCompatibleRelease(version string) ([]*constraint, error) {
 		return nil, err
 	}
 
-	// ~=2.2 is equivalent to >=2.2, <3.0
 	if len(v.release) == 1 {
 		upperVersion := fmt.Sprintf("%d.0", v.release[0]+1)
 		return []*constraint{
@@ -97,9 +96,21 @@ func parseCompatibleRelease(version string) ([]*constraint, error) {
 		}, nil
 	}
 
-	// ~=1.4.2 is equivalent to >=1.4.2, <1.5.0
+	// ~=V is >=V together with a prefix match on V without its last release segment:
+	// ~=2.2 is >=2.2, <3.0 and ~=1.4.2 is >=1.4.2, <1.5.0
 	if len(v.release) >= 2 {
-		upperVersion := fmt.Sprintf("%d.%d.0", v.release[0], v.release[1]+1)
+		prefix := v.release[:len(v.release)-1]
+		parts := make([]string, len(prefix))
+		for i, n := range prefix {
+			if i == len(prefix)-1 {
+				n++
+			}
+			parts[i] = fmt.Sprintf("%d", n)
+		}
+		upperVersion := strings.Join(parts, ".") + ".0"
+		if v.epoch != 0 {
+			upperVersion = fmt.Sprintf("%d!%s", v.epoch, upperVersion)
+		}
 		return []*constraint{
 			{operator: ">=", version: version},
 			{operator: "<", version: upperVersion},
